@@ -553,17 +553,18 @@ def rule_MK5(ctx, rep):
             if isinstance(v, ast.Call) and isinstance(v.func, ast.Name) and v.func.id in ('tuple', 'list') and len(v.args) == 1:
                 v = v.args[0]
             if isinstance(v, (ast.GeneratorExp, ast.ListComp)) and len(v.generators) == 1 and not v.generators[0].ifs:
+                from . import routes
                 g = v.generators[0]
-                it = g.iter
-                if isinstance(it, ast.Call) and isinstance(it.func, ast.Name) and it.func.id == 'range' and len(it.args) == 1 and isinstance(g.target, ast.Name):
-                    cnt = sem.slin(fn, it.args[0], ins[0], pm)
+                b = routes.binder_of(fn, g.target, g.iter, ins[0], pm, v)
+                if b is not None and b.kind == 'range':
+                    cnt = b.hi - b.lo + 1
                     elt = v.elt
                     inj = False
                     if isinstance(elt, ast.BinOp) and isinstance(elt.op, ast.Mod):
                         mod = sem.slin(fn, elt.right, ins[0], pm)
                         inner = to_lin(sem.symx(elt.left), {}, opaque=True)
-                        inj = mod is not None and mod == Lin.sym('M') and inner is not None and abs(inner.coef(g.target.id)) == 1
-                    good = cnt is not None and cnt == Lin.sym('T') + 1 and inj
+                        inj = mod is not None and mod == Lin.sym('M') and inner is not None and abs(inner.coef(b.var)) == 1
+                    good = cnt == Lin.sym('T') + 1 and inj
         if good:
             rep.ok('MK5', fn, site, 't+1 distinct senders contribute without PRSS')
         else:
